@@ -78,7 +78,11 @@ class C15Gen:
         model = sim.user["model"]
         w = self.cfg["client_weights"]
         client = rng.choices(["registrar"] + QUERY_CLIENTS + ["saboteur"], weights=[w["registrar"], w["calculator"], w["inspector"], w["validator"], w["saboteur"]])[0]
-        if getattr(self, "stale_probes", None) and rng.random() < 0.5:
+        if getattr(self, "pair", None):
+            client = "inspector"
+            op = self.qop(self.pair)
+            self.pair = None
+        elif getattr(self, "stale_probes", None) and rng.random() < 0.5:
             # right after a Clear(): ask again about names that were valid before it
             c, u = self.stale_probes.pop()
             client = "saboteur"
@@ -317,7 +321,12 @@ class C15Gen:
         ]
         if tag == "db":
             table += [["S", 1.0, u, c], ["Q", u, c, None], ["m", ["S", 1.0, u, c], "IsValid", []]]
-        return rng.choice(table)
+        e = rng.choice(table)
+        if e[0] in ("db", "db2", "dbl", "db2l") and rng.random() < 0.7:
+            # the same question to the OTHER instance right afterwards
+            flip = {"db": "db2", "db2": "db", "dbl": "db2l", "db2l": "dbl"}
+            self.pair = [flip[e[0]]] + e[1:]
+        return e
 
     def g_query(self, sim, model, client, registered=None):
         rng = self.rng
